@@ -426,6 +426,36 @@ Proof.
   - apply (Hb H). intros h0 Eh. injection Eh as <-. lia.
 Qed.
 
+(** greedy: a repetition without stop parser ends only because the upper bound is reached or because
+    one more unit does not match what follows *)
+Lemma prep_maximal unitp : forall n lo hi vals s v s',
+  prep unitp None n lo hi vals s = Some (POk v s') ->
+  exists l, v = VList l /\ (lt_opt (length l) hi = false \/ unitp s' = Some PFail).
+Proof.
+  induction n as [|n IH]; intros lo hi vals s v s' H; cbn [prep] in H; [discriminate H|].
+  cbn [stop_hit] in H. destruct (length vals <? lo).
+  - destruct (unitp s) as [[v1 s1|]|]; try discriminate H. exact (IH _ _ _ _ _ _ H).
+  - destruct (lt_opt (length vals) hi) eqn:Elt.
+    2:{ injection H as <- <-. exists vals. split; [reflexivity|left; exact Elt]. }
+    destruct (unitp s) as [[v1 s1|]|] eqn:Eu; try discriminate H.
+    + destruct (ge_opt (length (vals ++ [v1])) hi) eqn:Ege.
+      * injection H as <- <-. exists (vals ++ [v1]). split; [reflexivity|left].
+        unfold lt_opt, ge_opt in *. destruct hi as [h|]; [|discriminate Ege].
+        apply Nat.leb_le in Ege. apply Nat.ltb_ge. exact Ege.
+      * exact (IH _ _ _ _ _ _ H).
+    + injection H as <- <-. exists vals. split; [reflexivity|right; exact Eu].
+Qed.
+
+(** the until-variants: as soon as the stop parser succeeds at an item boundary the repetition ends there,
+    without failing and whatever the count so far (unless the upper bound had ended it already) *)
+Lemma prep_stops unitp stopp n lo hi vals s : stop_hit stopp s = Some true ->
+  (length vals <? lo) || lt_opt (length vals) hi = true ->
+  prep unitp stopp (S n) lo hi vals s = Some (POk (VList vals) s).
+Proof.
+  intros Hs Hc. cbn [prep]. rewrite Hs. destruct (length vals <? lo); [reflexivity|].
+  cbn [orb] in Hc. rewrite Hc. reflexivity.
+Qed.
+
 (** * Progress, termination, and the exact answer *)
 
 Section Exact.
